@@ -81,9 +81,17 @@ class FuncInfo:
         self.is_static = False
         self.is_classmethod = False
         self.is_property = False
+        self.memo_decorator = None  # text of a functools.lru_cache / cache decorator
+        self.other_decorators = []  # texts of decorators the model gives no meaning to
         if not isinstance(node, ast.Lambda):
             for d in node.decorator_list:
                 txt = ast.unparse(d)
+                head = txt.split("(")[0]
+                if head.split(".")[-1] in ("lru_cache", "cache"):
+                    self.memo_decorator = txt
+                elif not (head in ("staticmethod", "classmethod", "property", "abc.abstractmethod", "abstractmethod", "nb.njit", "numba.njit", "njit")
+                          or head.endswith((".setter", ".getter", ".deleter"))):
+                    self.other_decorators.append(txt)
                 if txt == "staticmethod":
                     self.is_static = True
                 elif txt == "classmethod":
